@@ -434,6 +434,18 @@ let run_vsock_shift toks =
         | None -> "FAIL c09_shift_ok")
   | _ -> failwith "vsock_shift: bad case"
 
+(* vsock_shift_guard <case as vsock>
+   C09: the guard of the MODEL theorem c09_model_runs_shift_ok (Conn/C09_Shift.v c09_guard_trace), evaluated
+   by running the extracted model on the inputs of the case: GUARD = every sequence-number comparison the
+   model makes along the scenario is within the tolerance, hence (theorem) the model's relabelled run is the
+   relabelled trace *)
+let run_vsock_shift_guard toks =
+  let a = Array.of_list toks in
+  if Array.length a < 17 then "BADCASE" else
+  let cfg = config_of a in
+  let ops = List.map parse_op (Array.to_list (Array.sub a 17 (Array.length a - 17))) in
+  if c09_guard_trace_cubic C_cubic.cbrt_oracle C_cubic.powf3_oracle cfg ops then "GUARD" else "NOGUARD"
+
 (* vdrop <case as vsock> : the ops may contain one `X` = the connection future is dropped without having
    returned (cancellation; model: drop_vsock = Drop for VirtualSocket); after it only application ops follow
    and each observation is `result/wakes` (the connection object and with it the fingerprint are gone) *)
@@ -528,6 +540,7 @@ let run_vdrop_pred toks =
 let dispatch = function
   | "vdrop_pred" :: r -> Some (run_vdrop_pred r)
   | "vdrop" :: r -> Some (run_vdrop r)
+  | "vsock_shift_guard" :: r -> Some (run_vsock_shift_guard r)
   | "vsock_shift" :: r -> Some (run_vsock_shift r)
   | "vsock_pred" :: r -> Some (run_vsock_pred r)
   | "vsock_pred_all" :: r -> Some (run_vsock_pred_all r)
